@@ -13,6 +13,7 @@ types and the values the file-format specification assigns to the stored bytes (
 nothing flagged truncated.
 -/
 import SqliteDissect.Proofs.CarveRecall
+import SqliteDissect.Proofs.CarveCompletes
 
 namespace SqliteDissect.Properties.C09
 open SqliteDissect SqliteDissect.Model SqliteDissect.Model.Carve
@@ -46,6 +47,23 @@ theorem recall_region (sig : CarveSig) (fc : List Int) (simplified : List (List 
       c.rec_.cols = expectedCCols 0 e cols := by
   exact Proofs.CarveRecall.recall_region sig fc simplified pf hc hpf ps pn po rs data cols s e hv hne hn hwf
     hsize hin hm cells h
+
+/-- The same without assuming that carving completes (it does, C08 `completes`, since a784e20): carving
+the region either leaves the range in which the model follows the code's floats (`outsideModel`) or
+returns cells among which is the intact record, at its place, with its stored values. -/
+theorem recall_region_total (sig : CarveSig) (fc : List Int) (simplified : List (List Int)) (pf pp : Regex.Pat)
+    (hc : chosenSignature sig = .ok (fc, simplified)) (hpf : Regex.genSignature simplified false = .ok pf)
+    (hpp : Regex.genSignature simplified true = .ok pp) (hnc : sig.numberOfColumns = simplified.length)
+    (ps pn po rs : Nat) (data : Buf) (cols : List Spec.Col) (s e : Nat)
+    (hv : ∀ c ∈ cols, Spec.ValidCol c) (hne : cols ≠ []) (hn : cols.length = sig.numberOfColumns)
+    (hwf : data.WF) (hsize : data.size < 2 ^ 53) (hin : IntactAt data s e cols)
+    (hm : (s, e) ∈ Regex.finditer pf data.toList) :
+    carveUnallocated sig ps pn po rs data = .error .outsideModel ∨
+    ∃ cells, carveUnallocated sig ps pn po rs data = .ok cells ∧
+      ∃ c ∈ cells, c.matchStart = s ∧ c.matchEnd = e ∧ c.fileOffset = po + rs + s ∧
+        c.rec_.cols = expectedCCols 0 e cols := by
+  exact Proofs.CarveCompletes.recall_region_total sig fc simplified pf pp hc hpf hpp hnc ps pn po rs data cols s e
+    hv hne hn hwf hsize hin hm
 
 /-- non-vacuity of `recall_record` / `recall_region`: a record (NULL, one-byte 7) preceded and
 followed by other bytes is intact at offset 2 -/
